@@ -187,9 +187,9 @@ func verifStopCtx(p *Process, c context.Context, f context.CancelFunc) (context.
 // VerifProbeResult feeds a synthetic go-health check result to the readiness ("ready") or
 // liveness ("live") prober of the running instance of name, through healthCheckCompleted.
 func (p *ProjectRunner) VerifProbeResult(name, kind string, contiguousFailures int64, status string) bool {
-	p.runProcMutex.Lock()
+	// no lock: the harness calls this while every scheduled thread is parked (a parked
+	// ShutDownProject holds runProcMutex)
 	proc := p.runningProcesses[name]
-	p.runProcMutex.Unlock()
 	if proc == nil {
 		return false
 	}
@@ -226,4 +226,20 @@ func (p *ProjectRunner) VerifDoneNames() []string {
 	}
 	sort.Strings(l)
 	return l
+}
+
+// VerifRunningNamesNoLock lists the running registry without taking runProcMutex (harness use
+// while every scheduled thread is parked).
+func (p *ProjectRunner) VerifRunningNamesNoLock() []string {
+	l := []string{}
+	for n := range p.runningProcesses {
+		l = append(l, n)
+	}
+	sort.Strings(l)
+	return l
+}
+
+func (p *ProjectRunner) VerifHasRunning(name string) bool {
+	_, ok := p.runningProcesses[name]
+	return ok
 }
